@@ -15,9 +15,10 @@ mutants for incremental builds and removed with --clean).
 import json, os, re, shutil, subprocess, sys, time, glob
 
 SCR = "/tmp/scratch"
-WT = os.path.join(SCR, "selftest-repo")
-HM = os.path.join(SCR, "selftest-harness")
-VR = os.path.join(SCR, "selftest-root")
+SLOT = os.environ.get("SELFTEST_SLOT", "")
+WT = os.path.join(SCR, "selftest-repo" + SLOT)
+HM = os.path.join(SCR, "selftest-harness" + SLOT)
+VR = os.path.join(SCR, "selftest-root" + SLOT)
 
 sys.path.insert(0, "/verif")
 def load_checks():
